@@ -18,10 +18,16 @@ from spyne.server.wsgi import WsgiApplication, _parse_qs
 TNS = 'verif.tns'
 
 
+class Leaf(ComplexModel):
+    __namespace__ = TNS
+    v = Integer
+
+
 class Sub(ComplexModel):
     __namespace__ = TNS
     x = Integer
     ys = Array(Integer)
+    leaves = Array(Leaf)
 
 
 class Item(ComplexModel):
@@ -38,6 +44,7 @@ class Root(ComplexModel):
     items = Array(Item)
     tags = Array(Unicode)
     one = Sub
+    other = Sub            # sibling object with same-named array fields
 
 
 def snapshot(o):
@@ -104,6 +111,18 @@ def index_order(c):
             for j in idx:
                 pairs.append(('root.items[%d].subs[%d].x' % (i, j), str(1000 * i + j)))
             pairs.append(('root.items[%d].twin[%d].x' % (i, idx[0]), str(7000 + i)))
+        # three levels deep: the same (field name, parent index) occurs under different grandparents
+        want_leaves = {}
+        for gi, i in enumerate(idx[:2]):
+            ks = idx if gi == 0 else tuple(reversed(idx[:2]))
+            for k in ks:
+                pairs.append(('root.items[%d].subs[%d].leaves[%d].v' % (i, idx[0], k), str(50000 + 100 * i + k)))
+            want_leaves[i] = [50000 + 100 * i + k for k in sorted(ks)]
+        # sibling objects with same-named arrays
+        for k in idx:
+            pairs.append(('root.one.leaves[%d].v' % k, str(600 + k)))
+        for k in idx[:2]:
+            pairs.append(('root.other.leaves[%d].v' % k, str(700 + k)))
     order = [pairs[p] for p in perm] + pairs[3:][::-1]
     qs = '&'.join('%s=%s' % (quote(k), v) for k, v in order)
     wsgi, got = _app()
@@ -122,6 +141,13 @@ def index_order(c):
                     detail=[s.x for s in (it.subs or [])])
             c.check('sibling_array_independent', [s.x for s in (it.twin or [])] == [7000 + i],
                     detail=[s.x for s in (it.twin or [])])
+            first = [s_ for s_ in (it.subs or []) if s_.x == 1000 * i + sorted(idx)[0] or True]
+            sub0 = [s_ for s_ in (it.subs or []) if s_.x == 1000 * i + idx[0]]
+            got_leaves = [l.v for l in ((sub0[0].leaves if sub0 else None) or [])]
+            c.check('third_level_in_index_order', got_leaves == want_leaves[i], detail=(got_leaves, want_leaves[i]))
+        c.check('sibling_objects_same_named_arrays', [l.v for l in ((root.one.leaves if root.one else None) or [])] ==
+                [600 + k for k in sorted(idx)] and [l.v for l in ((root.other.leaves if root.other else None) or [])] ==
+                [700 + k for k in sorted(idx[:2])], detail=(snapshot(root.one), snapshot(root.other)))
 
 
 def _objects():
